@@ -27,11 +27,11 @@ CHECKS.update({
    "Every swap transition from every state reached within the depth bound honours amount, direction, bound and limit; partial fills end exactly on the limit; exact-out without limit never partially fills; success/failure flips exactly at the realised threshold.",
    SVM, "DESIGN.md §3 C03"),
  "C05": (A, "model_checking",
-   "explicit-state search; state invariant with independent decoders of pool, positions, fixed and dynamic tick arrays; must-refuse requests (wrong tick array for a bound, re-initialisation of an existing array) are part of the alphabet, as are tick arrays at unaligned starts (multiples of the spacing, of lcm(88, spacing), at the left edge of the tick range), deposits naming them, and empty / inverted reposition targets",
+   "explicit-state search; state invariant with independent decoders of pool, positions, fixed and dynamic tick arrays; must-refuse requests (wrong tick array for a bound, re-initialisation of an existing array) are part of the alphabet, as are tick arrays at unaligned starts (multiples of the spacing, of lcm(88, spacing), at the left edge of the tick range), deposits naming them, and empty / inverted reposition targets; fixed histories on positions bounded by the lowest tick (tick spacings 1, 2, 4)",
    "In every reachable state within the depth bound pool.liquidity equals the sum over covering positions and every tick's net/gross/initialized equal the sums over bounding positions, in both encodings, incl. shared bounds, full range, landing on ticks, reaching price bounds.",
    SVM, "DESIGN.md §3 C05"),
  "C06": (A, "model_checking",
-   "explicit-state search; per-swap-step oracle from the H2 trace (rate and in-range liquidity re-derived from the pool and the positions) + totals from real balances/accounts + emitted event + conservation of what the positions can newly claim (real updates on pre/post copies); enumerated exact-out swaps whose total input lies within 8 units of 2^64 (must all be refused)",
+   "explicit-state search; per-swap-step oracle from the H2 trace (rate and in-range liquidity re-derived from the pool and the positions) + totals from real balances/accounts + emitted event + conservation of what the positions can newly claim (real updates on pre/post copies); enumerated exact-out swaps whose total input lies within 8 units of 2^64 (must all be refused); fee and protocol-fee setters inside the search on an adaptive-fee pool",
    "Every swap transition within the depth bound splits exactly as stated (per-step fee, protocol cut, growth; trader debit/credit; Traded event); every collect_protocol_fees pays exactly what is owed and resets it; fee / protocol rates varied inside the search.",
    SVM + " Hook H2 is trusted to record the values the swap loop used.", "DESIGN.md §3 C06"),
  "C08": (A, "model_checking",
@@ -47,7 +47,7 @@ CHECKS.update({
    "Dynamic (Anchor + Pinocchio) and fixed (Anchor + Pinocchio) arrays driven with the same update sequences: canonical encoding, identical get_tick / next-initialized answers and errors after every op.",
    "Overlay casts for types without public constructors (same as the program's loaders); bytes beyond the used length unconstrained (not persisted on chain).", "DESIGN.md §3 C13"),
  "C16": (A, "model_checking",
-   "function level: bounded-exhaustive enumeration over fee bps x max-fee x amounts x epoch (the schedule entry not in force differs in rate and cap / only in the cap / only in the rate) vs exact reference; handler level: explicit-state search over transfer-fee pools with the real Token-2022 processor, oracles from real balances + H2 trace + events",
+   "function level: bounded-exhaustive enumeration over fee bps x max-fee x amounts x epoch (the schedule entry not in force differs in rate and cap / only in the cap / only in the rate) vs exact reference; handler level: explicit-state search over transfer-fee pools with the real Token-2022 processor, oracles from real balances + H2 trace + events; reposition maxima at the instruction\'s own threshold (new-range requirement + fee on the netted transfer); increase_liquidity_by_token_amounts_v2 judged in every state; a root with a pending fee removal",
    "Function-level: excluded+fee==amount, included is the least pre-image or errors only when none exists, Anchor==Pinocchio, TLV parser == spl-token-2022. Handler-level: every swap / increase / decrease within the depth bound moves exactly the curve amounts into/out of the vault, charges the smallest fee-including amount, applies thresholds and caller bounds to what the user pays/receives, reports the amounts moved; solvency invariant holds.",
    SVM + " One fee schedule per mint at handler level (epoch selection is function-level).", "DESIGN.md §3 C16"),
  "C19": (A, "model_checking",
@@ -62,11 +62,11 @@ CHECKS.update({
    "For every op sequence up to the completed depth (swaps across/onto/short of bounds both ways, liquidity changes incl. shared and de-initialised bounds, updates, collects; accumulators at 0, mid-range and just below wrap-around; pool starting on a bound): collected+owed of every position is at most its exact pro-rata entitlement and short of it by less than L/2^64 per credited step + 1 per update.",
    SVM + " Hook H2 supplies per-step liquidity/fee and crossings; the active set is re-derived from position ranges and cross-checked against each step's liquidity.", "DESIGN.md §3 C07"),
  "C11": (A, "model_checking",
-   "explicit-state search in ledger mode with the harness clock: exact rational shadow ledgers of reward entitlements per position and reward index (upper bound driven by the harness clock alone, lower bound by the harness\'s own record of settling instructions); enabledness oracles for emission changes, collects and earlier timestamps (incl. re-setting and lowering a rate in force after collects drained the vault, through both handlers)",
+   "explicit-state search in ledger mode with the harness clock: exact rational shadow ledgers of reward entitlements per position and reward index (upper bound driven by the harness clock alone, lower bound by the harness\'s own record of settling instructions); enabledness oracles for emission changes, collects and earlier timestamps (incl. re-setting and lowering a rate in force after collects drained the vault, through both handlers); the third reward is paid in a Token-2022 mint with a transfer fee (partial payouts), a root in which only the second reward emits, a position beyond a zero-liquidity gap, reward-authority hand-overs",
    "For every op sequence up to the completed depth (clock steps, swaps moving positions in/out of range, liquidity changes, updates, collects against a vault holding exactly one day of emissions, emission changes incl. refused ones, late reward initialisation): credited rewards are within the two-sided rounding bound of the exact share; nothing accrues at zero liquidity or for uninitialised rewards; earlier timestamps fail; collect pays min(owed, vault); emission changes settle at the old rate and need a day of emissions.",
    SVM, "DESIGN.md §3 C11"),
  "C15": (A, "fault_enumeration",
-   "complete substitution matrix: every account slot of every fund-moving instruction (plus update_fees_and_rewards and set_reward_emissions) x every same-typed foreign account (twin universe, sibling pool / position incl. never-funded ones / reward index / token program), executed on the real program; every writable slot of every judged instruction handed over read-only (must fail or end in the same state)",
+   "complete substitution matrix: every account slot of every fund-moving instruction (plus update_fees_and_rewards and set_reward_emissions) x every same-typed foreign account (twin universe, sibling pool / position incl. never-funded ones / reward index / token program), executed on the real program; every writable slot of every judged instruction handed over read-only (must fail or end in the same state); exact-out requests beyond the reserves through a world with a deep and a nearly empty full-range-only pool",
    "Every non-exempt substitution is rejected with the ledger unchanged (16 instructions, SPL and mixed Token-2022 variants, 4-6 root states); exemptions are listed with justification in the evidence.",
    SVM + " Only rejection by some layer is required (a constraint duplicated by the token program cannot be isolated by outcome).", "DESIGN.md §3 C15"),
 })
@@ -77,7 +77,7 @@ CHECKS.update({
    "All 50 privileged instructions (18 position-token, 32 stored-authority; Anchor- and Pinocchio-dispatched; SPL and Token-2022 flavours; fresh/funded/emptied/locked/bundled states): the instruction succeeds only if the holder, its exactly-one-token delegate or the stored authority signed; every other variant fails and leaves the ledger byte-identical.",
    SVM + " The 16 instructions classified as not privileged are listed with reasons in the evidence; an unclassified instruction fails the run.", "DESIGN.md §3 C04"),
  "C18": (A, "model_checking",
-   "explicit-state search against a reference lifecycle machine (enabledness + post-conditions on every transition, ledger == machine in every state) + exhaustive bundle indexes, range-validation and one-sided-bound tables; one-token delegates approved before a lock, the NFT close instruction aimed at bundled positions, locked positions held in a plain (165-byte) Token-2022 account",
+   "explicit-state search against a reference lifecycle machine (enabledness + post-conditions on every transition, ledger == machine in every state) + exhaustive bundle indexes, range-validation and one-sided-bound tables; one-token delegates approved before a lock, the NFT close instruction aimed at bundled positions, locked positions held in a plain (165-byte) Token-2022 account; one-way swaps (fees owed in exactly one token)",
    "All sequences up to the completed depth of open (4 kinds, valid/invalid/sentinel ranges) / increase / decrease / swap-to-earn / update / collect / close / reset / lock / transfer-locked / reposition / bundle ops on ordinary, Token-2022 and bundled positions agree with the lifecycle machine; all 256 bundle indexes; range validation and one-sided bound resolution against brute force (Anchor and Pinocchio).",
    SVM + " Metaplex metadata CPI is a recording stub (DESIGN §7).", "DESIGN.md §3 C18"),
 })
@@ -91,7 +91,7 @@ CHECKS.update({
 
 CHECKS.update({
  "C14": (A, "model_checking",
-   "explicit-state search over swap / clock sequences on adaptive-fee pools with a per-step oracle from the H2 trace against a reference schedule without the skip optimisation; control-factor-0 twin differential; function-level bounded-exhaustive enumeration of the fee state machine incl. every accumulator at which the uncapped rate crosses a multiple of 2^32; first swap in the life of a pool created away from tick group 0; re-tuning a pool before it opens; two-hop routes through a pool that has not opened yet (judged by C17\'s oracle)",
+   "explicit-state search over swap / clock sequences on adaptive-fee pools with a per-step oracle from the H2 trace against a reference schedule without the skip optimisation; control-factor-0 twin differential; function-level bounded-exhaustive enumeration of the fee state machine incl. every accumulator at which the uncapped rate crosses a multiple of 2^32; first swap in the life of a pool created away from tick group 0; re-tuning a pool before it opens; two-hop routes through a pool that has not opened yet (judged by C17\'s oracle), incl. a route over two adaptive pools with different opening times; worlds with transfer-fee mints and with sparse tick arrays under a wide position; a fixed history at the lowest tick group (tick spacing 4); variables kept across a change of the tick-group size are a violation",
    "Every recorded step of every swap in every sequence within the depth bound charges the reference rate of every tick group it touches, within [static, 10%], accumulator <= max; stored reference / accumulator / major-swap timestamp follow the documented rules; control factor 0 == static-fee twin; trading refused before the enable time. Function level: 1728 validated constant sets x variable states x elapsed classes, loop walks incl. skipped, saturated and boundary endings.",
    SVM + " Hook H2 is trusted for per-step rate, bounded target and skip flag. Tick spacing 64 and 4 constant sets at instruction level; the wide constant/variable quantifier is carried by the function-level walks.", "DESIGN.md §3 C14"),
 })
@@ -102,7 +102,7 @@ CHECKS.update({
    "Every two-hop over every reachable pool-pair state within the depth bound leaves a ledger byte-identical to leg one followed by leg two (pools, tick arrays, oracles, vaults, trader accounts, events) and fails exactly when a leg fails alone, the intermediate amounts differ, the pools coincide or share no mint, or the threshold is violated; SPL, Token-2022 and transfer-fee-on-the-intermediate worlds; adaptive-fee pools on a route.",
    SVM + " Quick tier explores depth 1 from two roots; deeper prefixes in the thorough tier (wall-capped under load, reported).", "DESIGN.md §3 C17"),
  "C20": (A, "model_checking",
-   "differential inside an explicit-state search: in every state a 60-swap alphabet is executed on the real program and quoted by the Rust core SDK on facades decoded from the same bytes (static, adaptive-fee and transfer-fee pools); function-level enumeration: all ticks both ways, amount/price/fee helpers and liquidity quotes over boundary alphabets; ethnum shim self-check vs num-bigint; liquidity quotes with a transfer fee on one / both mints against the program\'s own fee functions; roots drained to the protocol price bounds",
+   "differential inside an explicit-state search: in every state a 60-swap alphabet is executed on the real program and quoted by the Rust core SDK on facades decoded from the same bytes (static, adaptive-fee and transfer-fee pools); function-level enumeration: all ticks both ways, amount/price/fee helpers and liquidity quotes over boundary alphabets; ethnum shim self-check vs num-bigint; liquidity quotes with a transfer fee on one / both mints against the program\'s own fee functions; roots drained to the protocol price bounds; a world on the lowest tick (tick spacing 4); quotes by one token amount with a capped transfer fee at several slippage tolerances",
    "Whenever the program's swap succeeds the SDK returns identical in/out/fee; where it refuses, the SDK returns a number only for partial exact-out fills (running off the arrays never produced an SDK number); conversions equal on all 887273 ticks and boundary prices; helpers equal or SDK errors where the program rejects as overflowing; slippage bounds on the safe side. Two recorded findings (quote before trade-enable time; exact-in token_in over a transfer-fee mint) are listed in known_findings.json; two defects were repaired (fix: commits).",
    SVM + " rust-sdk/core is built against a U256 shim (ethnum is not available offline) that is itself checked exhaustively against num-bigint on a value alphabet before use. TypeScript/WASM target not run (same Rust source).", "DESIGN.md §3 C20"),
 })
